@@ -239,7 +239,7 @@ theorem polygonToHoomd_refines (M : Meas ℝ) (hL : Spec.Lawful M) (s : St ℝ) 
       = s.cls := by
     show (polygonInertia M _).1.cls = _
     rw [polygonInertia_cls]; exact c1
-  rw [cls4, ← centroidOf_observe, moved_back M hL s.cls (observe s) (CohObs.of_coherent hc)] at o5
+  rw [cls4, ← centroidOf_observe M s, moved_back M hL s.cls (observe s) (CohObs.of_coherent hc)] at o5
   have n3 := polygonInertia_next M ((setCentroid M s V3.zero).alloc (v3l (pubCentroid M (setCentroid M s V3.zero))))
   have r3 := polygonInertia_ret M ((setCentroid M s V3.zero).alloc (v3l (pubCentroid M (setCentroid M s V3.zero))))
   have h3 := (polygonInertiaHead_frame M ((setCentroid M s V3.zero).alloc (v3l (pubCentroid M (setCentroid M s V3.zero))))).next_le
@@ -281,5 +281,353 @@ theorem polygonToHoomd_refines (M : Meas ℝ) (hL : Spec.Lawful M) (s : St ℝ) 
       rw [polygonInertia_cEdges]
       show (setCentroid M s V3.zero).cEdges = _
       rw [setCentroid_cEdges]
+
+theorem polyhedronInertia_cls (M : Meas ℝ) (s : St ℝ) : (polyhedronInertia M s).1.cls = s.cls := rfl
+theorem polyhedronInertia_fVerts (M : Meas ℝ) (s : St ℝ) : (polyhedronInertia M s).1.fVerts = s.fVerts := rfl
+
+theorem polyToHoomd_refines (M : Meas ℝ) (hL : Spec.Lawful M) (s : St ℝ) (hw : Spec.WF s)
+    (hc : Spec.Coherent M s) (hk : s.cls.kind = .poly) :
+    Refines M s (polyhedronToHoomd M s)
+      { arrays := [(0, (Spec.moved M s.cls (observe s) V3.zero).verts),
+                   (2, v3l (Spec.centroidOf M s.cls (Spec.moved M s.cls (observe s) V3.zero))),
+                   (4, Spec.polyhedronInertia M s.cls (Spec.moved M s.cls (observe s) V3.zero))],
+        scalars := M.value "volume" (Spec.moved M s.cls (observe s) V3.zero), err := none } := by
+  have w1 := WF.setCentroid (M := M) hw V3.zero
+  have o1 := observe_setCentroid M s V3.zero hw
+  have c1 := setCentroid_cls M s V3.zero
+  have w2 := WF.alloc w1 (v3l (pubCentroid M (setCentroid M s V3.zero)))
+  have o2 := observe_alloc _ (v3l (pubCentroid M (setCentroid M s V3.zero))) w1
+  have f3 := polyhedronInertia_frame M ((setCentroid M s V3.zero).alloc (v3l (pubCentroid M (setCentroid M s V3.zero))))
+  have w3 := WF.of_frame w2 f3
+  obtain ⟨o3, a3⟩ := observe_polyhedronInertia M _ w2
+  have w4 := WF.alloc w3 ((polyhedronInertia M ((setCentroid M s V3.zero).alloc
+    (v3l (pubCentroid M (setCentroid M s V3.zero))))).1.get (polyhedronInertia M ((setCentroid M s V3.zero).alloc
+    (v3l (pubCentroid M (setCentroid M s V3.zero))))).1.fVerts)
+  have o4 := observe_alloc _ ((polyhedronInertia M ((setCentroid M s V3.zero).alloc
+    (v3l (pubCentroid M (setCentroid M s V3.zero))))).1.get (polyhedronInertia M ((setCentroid M s V3.zero).alloc
+    (v3l (pubCentroid M (setCentroid M s V3.zero))))).1.fVerts) w3
+  have o5 := observe_setCentroid M _ (pubCentroid M s) w4
+  have f5 := setCentroid_frame M ((polyhedronInertia M ((setCentroid M s V3.zero).alloc
+    (v3l (pubCentroid M (setCentroid M s V3.zero))))).1.alloc ((polyhedronInertia M ((setCentroid M s V3.zero).alloc
+    (v3l (pubCentroid M (setCentroid M s V3.zero))))).1.get (polyhedronInertia M ((setCentroid M s V3.zero).alloc
+    (v3l (pubCentroid M (setCentroid M s V3.zero))))).1.fVerts)) (pubCentroid M s)
+  rw [o4, o3, o2, o1] at o5
+  have cls4 : ((polyhedronInertia M ((setCentroid M s V3.zero).alloc (v3l (pubCentroid M (setCentroid M s V3.zero))))).1.alloc
+      ((polyhedronInertia M ((setCentroid M s V3.zero).alloc (v3l (pubCentroid M (setCentroid M s V3.zero))))).1.get
+        (polyhedronInertia M ((setCentroid M s V3.zero).alloc (v3l (pubCentroid M (setCentroid M s V3.zero))))).1.fVerts)).cls
+      = s.cls := c1
+  rw [cls4, ← centroidOf_observe M s, moved_back M hL s.cls (observe s) (CohObs.of_coherent hc)] at o5
+  have v1 := w1.verts
+  have fr := (polyhedronToHoomd_frame M s hw).1
+  simp only [polyhedronToHoomd, hk, if_true] at fr ⊢
+  refine ⟨o5, ?_, edges_kept fr hw hc ?_⟩
+  · show Answer.mk _ _ _ = _
+    simp only [List.map, Answer.mk.injEq, and_true, List.cons.injEq, Prod.mk.injEq, true_and]
+    refine ⟨⟨?_, ?_, ?_⟩, ?_⟩
+    · rw [f5.get_eq _ (by simp only [St.next_alloc, polyhedronInertia_next]; omega)
+        (by show _ ≠ (setCentroid M s V3.zero).fVerts; simp only [polyhedronInertia_next, St.next_alloc]; omega),
+        St.get_alloc_self]
+      have := congrArg Obs.verts o3
+      rw [o2, o1] at this
+      exact this
+    · rw [f5.get_eq _ (by simp only [St.next_alloc, polyhedronInertia_next]; omega)
+        (by show _ ≠ (setCentroid M s V3.zero).fVerts; omega),
+        St.get_alloc_of_lt _ _ _ (by simp only [polyhedronInertia_next, St.next_alloc]; omega),
+        f3.get_eq _ (by simp only [St.next_alloc]; omega) (by show _ ≠ (setCentroid M s V3.zero).fVerts; omega),
+        St.get_alloc_self, ← centroidOf_observe, o1, c1]
+    · rw [f5.get_eq _ (by simp only [St.next_alloc, polyhedronInertia_next, polyhedronInertia_ret]; omega)
+        (by show _ ≠ (setCentroid M s V3.zero).fVerts; simp only [polyhedronInertia_ret, St.next_alloc]; omega),
+        St.get_alloc_of_lt _ _ _ (by simp only [polyhedronInertia_next, polyhedronInertia_ret, St.next_alloc]; omega),
+        a3, o2, o1]
+      show Spec.polyhedronInertia M (setCentroid M s V3.zero).cls _ = _
+      rw [c1]
+    · rw [o2, o1]
+  · show (setCentroid M _ _).cEdges = _
+    rw [setCentroid_cEdges]
+    show (setCentroid M s V3.zero).cEdges = _
+    rw [setCentroid_cEdges]
+
+/-- the value read from the OLD `_centroid` array at the end is the centroid at the start -/
+theorem old_centroid_kept {s t : St ℝ} (hf : Frame s t) (hw : Spec.WF s) : t.get s.fCen = s.get s.fCen :=
+  hf.get_eq _ hw.cen.1 hw.cen.2
+
+theorem convexToHoomd_refines (M : Meas ℝ) (hL : Spec.Lawful M) (s : St ℝ) (hw : Spec.WF s)
+    (hc : Spec.Coherent M s) (hk : s.cls.kind = .convex) :
+    Refines M s (polyhedronToHoomd M s)
+      { arrays := [(0, (Spec.moved M s.cls (observe s) V3.zero).verts),
+                   (2, (Spec.moved M s.cls (observe s) V3.zero).cen),
+                   (4, Spec.polyhedronInertia M s.cls (Spec.moved M s.cls (observe s) V3.zero))],
+        scalars := M.value "volume" (Spec.moved M s.cls (observe s) V3.zero), err := none } := by
+  have hnp : ¬ s.cls.kind = .poly := by rw [hk]; simp
+  have f1 := setCentroid_frame M s V3.zero
+  have w1 := WF.setCentroid (M := M) hw V3.zero
+  have o1 := observe_setCentroid M s V3.zero hw
+  have c1 := setCentroid_cls M s V3.zero
+  have f3 := polyhedronInertia_frame M (setCentroid M s V3.zero)
+  have w3 := WF.of_frame w1 f3
+  obtain ⟨o3, a3⟩ := observe_polyhedronInertia M _ w1
+  have w4 := WF.alloc w3 ((polyhedronInertia M (setCentroid M s V3.zero)).1.get
+    (polyhedronInertia M (setCentroid M s V3.zero)).1.fVerts)
+  have f4 := Frame.alloc (polyhedronInertia M (setCentroid M s V3.zero)).1 ((polyhedronInertia M (setCentroid M s V3.zero)).1.get
+    (polyhedronInertia M (setCentroid M s V3.zero)).1.fVerts)
+  have o4 := observe_alloc _ ((polyhedronInertia M (setCentroid M s V3.zero)).1.get
+    (polyhedronInertia M (setCentroid M s V3.zero)).1.fVerts) w3
+  have old : ((polyhedronInertia M (setCentroid M s V3.zero)).1.alloc ((polyhedronInertia M (setCentroid M s V3.zero)).1.get
+      (polyhedronInertia M (setCentroid M s V3.zero)).1.fVerts)).get s.fCen = (observe s).cen :=
+    old_centroid_kept ((f1.trans f3).trans f4) hw
+  have o5 := observe_setCentroid M ((polyhedronInertia M (setCentroid M s V3.zero)).1.alloc
+    ((polyhedronInertia M (setCentroid M s V3.zero)).1.get (polyhedronInertia M (setCentroid M s V3.zero)).1.fVerts))
+    (l3v (observe s).cen) w4
+  have f5 := setCentroid_frame M ((polyhedronInertia M (setCentroid M s V3.zero)).1.alloc
+    ((polyhedronInertia M (setCentroid M s V3.zero)).1.get (polyhedronInertia M (setCentroid M s V3.zero)).1.fVerts))
+    (l3v (observe s).cen)
+  rw [o4, o3, o1] at o5
+  have cls4 : ((polyhedronInertia M (setCentroid M s V3.zero)).1.alloc ((polyhedronInertia M (setCentroid M s V3.zero)).1.get
+      (polyhedronInertia M (setCentroid M s V3.zero)).1.fVerts)).cls = s.cls := c1
+  have cen0 : l3v (observe s).cen = Spec.centroidOf M s.cls (observe s) := by
+    unfold Spec.centroidOf; rw [hk]
+  rw [cls4, cen0, moved_back M hL s.cls (observe s) (CohObs.of_coherent hc)] at o5
+  rw [← cen0] at o5
+  have v1 := w1.verts
+  have cn1 := w1.cen
+  have fr := (polyhedronToHoomd_frame M s hw).1
+  simp only [polyhedronToHoomd, hnp, if_false, old] at fr ⊢
+  refine ⟨o5, ?_, edges_kept fr hw hc ?_⟩
+  · show Answer.mk _ _ _ = _
+    simp only [List.map, Answer.mk.injEq, and_true, List.cons.injEq, Prod.mk.injEq, true_and]
+    refine ⟨⟨?_, ?_, ?_⟩, ?_⟩
+    · rw [f5.get_eq _ (by simp only [St.next_alloc, polyhedronInertia_next]; omega)
+        (by show _ ≠ (setCentroid M s V3.zero).fVerts; simp only [polyhedronInertia_next]; omega),
+        St.get_alloc_self]
+      have := congrArg Obs.verts o3
+      rw [o1] at this
+      exact this
+    · rw [f5.get_eq _ (by simp only [St.next_alloc, polyhedronInertia_next]; omega)
+        (by show _ ≠ (setCentroid M s V3.zero).fVerts; exact cn1.2),
+        St.get_alloc_of_lt _ _ _ (by simp only [polyhedronInertia_next]; omega),
+        f3.get_eq _ cn1.1 cn1.2]
+      have := congrArg Obs.cen o1
+      exact this
+    · rw [f5.get_eq _ (by simp only [St.next_alloc, polyhedronInertia_next, polyhedronInertia_ret]; omega)
+        (by show _ ≠ (setCentroid M s V3.zero).fVerts; simp only [polyhedronInertia_ret]; omega),
+        St.get_alloc_of_lt _ _ _ (by simp only [polyhedronInertia_next, polyhedronInertia_ret]; omega),
+        a3, o1]
+      show Spec.polyhedronInertia M (setCentroid M s V3.zero).cls _ = _
+      rw [c1]
+    · rw [o1]
+  · show (setCentroid M _ _).cEdges = _
+    rw [setCentroid_cEdges]
+    show (setCentroid M s V3.zero).cEdges = _
+    rw [setCentroid_cEdges]
+
+theorem spheropolyhedronToHoomd_refines (M : Meas ℝ) (hL : Spec.Lawful M) (s : St ℝ) (hw : Spec.WF s)
+    (hc : Spec.Coherent M s) (hk : s.cls.kind = .convex) :
+    Refines M s (spheropolyhedronToHoomd M s)
+      { arrays := [(0, (Spec.moved M s.cls (observe s) V3.zero).verts)],
+        scalars := M.value "volume" (Spec.moved M s.cls (observe s) V3.zero), err := none } := by
+  have f1 := setCentroid_frame M s V3.zero
+  have w1 := WF.setCentroid (M := M) hw V3.zero
+  have o1 := observe_setCentroid M s V3.zero hw
+  have c1 := setCentroid_cls M s V3.zero
+  have w2 := WF.alloc w1 ((setCentroid M s V3.zero).get (setCentroid M s V3.zero).fVerts)
+  have f2 := Frame.alloc (setCentroid M s V3.zero) ((setCentroid M s V3.zero).get (setCentroid M s V3.zero).fVerts)
+  have o2 := observe_alloc _ ((setCentroid M s V3.zero).get (setCentroid M s V3.zero).fVerts) w1
+  have old : ((setCentroid M s V3.zero).alloc ((setCentroid M s V3.zero).get (setCentroid M s V3.zero).fVerts)).get s.fCen
+      = (observe s).cen := old_centroid_kept (f1.trans f2) hw
+  have o5 := observe_setCentroid M ((setCentroid M s V3.zero).alloc ((setCentroid M s V3.zero).get
+    (setCentroid M s V3.zero).fVerts)) (l3v (observe s).cen) w2
+  have f5 := setCentroid_frame M ((setCentroid M s V3.zero).alloc ((setCentroid M s V3.zero).get
+    (setCentroid M s V3.zero).fVerts)) (l3v (observe s).cen)
+  rw [o2, o1] at o5
+  have cls2 : ((setCentroid M s V3.zero).alloc ((setCentroid M s V3.zero).get (setCentroid M s V3.zero).fVerts)).cls
+      = s.cls := c1
+  have cen0 : l3v (observe s).cen = Spec.centroidOf M s.cls (observe s) := by
+    unfold Spec.centroidOf; rw [hk]
+  rw [cls2, cen0, moved_back M hL s.cls (observe s) (CohObs.of_coherent hc)] at o5
+  rw [← cen0] at o5
+  have v1 := w1.verts
+  have fr := (spheropolyhedronToHoomd_frame M s).1
+  simp only [spheropolyhedronToHoomd, old] at fr ⊢
+  refine ⟨o5, ?_, edges_kept fr hw hc ?_⟩
+  · show Answer.mk _ _ _ = _
+    simp only [List.map, Answer.mk.injEq, and_true, List.cons.injEq, Prod.mk.injEq, true_and]
+    refine ⟨?_, ?_⟩
+    · rw [f5.get_eq _ (by simp only [St.next_alloc]; omega)
+        (by show _ ≠ (setCentroid M s V3.zero).fVerts; omega), St.get_alloc_self]
+      exact congrArg Obs.verts o1
+    · rw [o1]
+  · show (setCentroid M _ _).cEdges = _
+    rw [setCentroid_cEdges]
+    show (setCentroid M s V3.zero).cEdges = _
+    rw [setCentroid_cEdges]
+
+/-- `ConvexSpheropolygon.to_hoomd`: the returned array is the live one; after the closing
+`centroid = old_centroid` (a translation by `old − old`) it holds the original vertices -/
+theorem spheropolygonToHoomd_refines (M : Meas ℝ) (s : St ℝ) (hw : Spec.WF s)
+    (hc : Spec.Coherent M s) (hk : s.cls.kind = .planar) :
+    Refines M s (spheropolygonToHoomd M s)
+      { arrays := [(0, (observe s).verts)], scalars := M.value "area" (observe s), err := none } := by
+  have o5 := observe_setCentroid M s (pubCentroid M s) hw
+  have back : Spec.moved M s.cls (observe s) (pubCentroid M s) = observe s := by
+    unfold Spec.moved
+    rw [hk, centroidOf_observe]
+    simp only []
+    rw [shiftRows_null _ _ (by simp) (by simp) (by simp)]
+  rw [back] at o5
+  refine ⟨o5, ?_, edges_kept (setCentroid_frame M s _) hw hc (setCentroid_cEdges M s _)⟩
+  show Answer.mk _ _ _ = _
+  simp only [spheropolygonToHoomd, List.map, Answer.mk.injEq, and_true, List.cons.injEq, Prod.mk.injEq, true_and]
+  have := congrArg Obs.verts o5
+  rw [← (setCentroid_frame M s (pubCentroid M s)).fVerts]
+  exact this
+
+theorem curvedToHoomd_refines (M : Meas ℝ) (s : St ℝ) (hw : Spec.WF s)
+    (hc : Spec.Coherent M s) (hk : s.cls.kind = .curved) :
+    Refines M s (curvedToHoomd M s)
+      { arrays := [(2, (Spec.moved M s.cls (observe s) V3.zero).cen),
+                   (4, M.value "inertia_tensor" (Spec.moved M s.cls (observe s) V3.zero))],
+        scalars := M.value "volume" (Spec.moved M s.cls (observe s) V3.zero), err := none } := by
+  have f1 := setCentroid_frame M s V3.zero
+  have w1 := WF.setCentroid (M := M) hw V3.zero
+  have o1 := observe_setCentroid M s V3.zero hw
+  have c1 := setCentroid_cls M s V3.zero
+  have w2 := WF.alloc w1 (M.value "inertia_tensor" (observe (setCentroid M s V3.zero)))
+  have f2 := Frame.alloc (setCentroid M s V3.zero) (M.value "inertia_tensor" (observe (setCentroid M s V3.zero)))
+  have o2 := observe_alloc _ (M.value "inertia_tensor" (observe (setCentroid M s V3.zero))) w1
+  have old : ((setCentroid M s V3.zero).alloc (M.value "inertia_tensor" (observe (setCentroid M s V3.zero)))).get s.fCen
+      = (observe s).cen := old_centroid_kept (f1.trans f2) hw
+  have o5 := observe_setCentroid M ((setCentroid M s V3.zero).alloc (M.value "inertia_tensor"
+    (observe (setCentroid M s V3.zero)))) (l3v (observe s).cen) w2
+  have f5 := setCentroid_frame M ((setCentroid M s V3.zero).alloc (M.value "inertia_tensor"
+    (observe (setCentroid M s V3.zero)))) (l3v (observe s).cen)
+  rw [o2, o1] at o5
+  have cls2 : ∀ a, ((setCentroid M s V3.zero).alloc a).cls = s.cls := fun _ => c1
+  obtain ⟨c, hcen⟩ := hc.centre hk
+  have back : Spec.moved M s.cls (Spec.moved M s.cls (observe s) V3.zero) (l3v (observe s).cen) = observe s := by
+    unfold Spec.moved
+    rw [hk]
+    simp only []
+    rw [show (observe s).cen = s.get s.fCen from rfl, hcen, l3v_v3l, ← hcen]
+    rfl
+  rw [cls2, back] at o5
+  rw [← o1] at o5
+  have v1 := w1.verts
+  have cn1 := w1.cen
+  have fr := (curvedToHoomd_frame M s hw).1
+  simp only [curvedToHoomd, old] at fr ⊢
+  refine ⟨o5, ?_, edges_kept fr hw hc ?_⟩
+  · show Answer.mk _ _ _ = _
+    simp only [List.map, Answer.mk.injEq, and_true, List.cons.injEq, Prod.mk.injEq, true_and]
+    refine ⟨⟨?_, ?_⟩, ?_⟩
+    · rw [f5.get_eq _ (by simp only [St.next_alloc]; omega) cn1.2, St.get_alloc_of_lt _ _ _ cn1.1]
+      exact congrArg Obs.cen o1
+    · rw [f5.get_eq _ (by simp only [St.next_alloc]; omega)
+        (by show _ ≠ (setCentroid M s V3.zero).fVerts; omega), St.get_alloc_self, o1]
+    · rw [o1]
+  · show (setCentroid M _ _).cEdges = _
+    rw [setCentroid_cEdges]
+    show (setCentroid M s V3.zero).cEdges = _
+    rw [setCentroid_cEdges]
+
+/-! ## every query -/
+
+theorem toHoomd_refines (M : Meas ℝ) (hL : Spec.Lawful M) (s : St ℝ) (hw : Spec.WF s) (hc : Spec.Coherent M s) :
+    Refines M s (toHoomd M s) (Spec.toHoomdAns M s.cls (observe s)) := by
+  unfold toHoomd Spec.toHoomdAns
+  cases hcls : s.cls <;> simp only []
+  · exact refines_same hw hc _ _ rfl
+  · exact refines_same hw hc _ _ rfl
+  · rw [← hcls]; exact curvedToHoomd_refines M s hw hc (by rw [hcls]; rfl)
+  · rw [← hcls]; exact curvedToHoomd_refines M s hw hc (by rw [hcls]; rfl)
+  · rw [← hcls]; exact polygonToHoomd_refines M hL s hw hc (by rw [hcls]; rfl)
+  · rw [← hcls]; exact polygonToHoomd_refines M hL s hw hc (by rw [hcls]; rfl)
+  · exact spheropolygonToHoomd_refines M s hw hc (by rw [hcls]; rfl)
+  · rw [← hcls]; exact polyToHoomd_refines M hL s hw hc (by rw [hcls]; rfl)
+  · rw [← hcls]; exact convexToHoomd_refines M hL s hw hc (by rw [hcls]; rfl)
+  · rw [← hcls]; exact spheropolyhedronToHoomd_refines M hL s hw hc (by rw [hcls]; rfl)
+
+theorem getFaceArea_refines (M : Meas ℝ) (s : St ℝ) (hw : Spec.WF s) (hc : Spec.Coherent M s) :
+    Refines M s (getFaceArea M s) (Spec.getFaceAreaAns M s.cls (observe s)) := by
+  unfold getFaceArea Spec.getFaceAreaAns
+  cases hcls : s.cls <;> simp only []
+  all_goals first
+    | exact refines_same hw hc _ _ rfl
+    | exact refines_alloc hw hc _ _
+    | skip
+  have f1 := Frame.allocAreas s (M.value "_simplex_areas" (observe s))
+  have w1 := WF.of_frame hw f1
+  refine ⟨?_, ?_, edges_kept (f1.trans (Frame.alloc _ _)) hw hc rfl⟩
+  · show observe (St.alloc _ _) = _
+    rw [observe_alloc _ _ w1]
+    exact observe_alloc s _ hw
+  · rw [answerOf_ret1]
+    congr 1
+    exact St.get_alloc_self { s.alloc (M.value "_simplex_areas" (observe s)) with cAreas := some s.next } _
+
+/-- reached by allocating and by writing arrays created since `s` only -/
+structure Quiet (s t : St ℝ) : Prop where
+  frame : Frame s t
+  fNormal : t.fNormal = s.fNormal
+  fCen : t.fCen = s.fCen
+  fEqs : t.fEqs = s.fEqs
+  fSeqs : t.fSeqs = s.fSeqs
+  verts : t.get s.fVerts = s.get s.fVerts
+  volume : t.volume = s.volume
+  cEdges : t.cEdges = s.cEdges
+
+theorem Quiet.refl (s : St ℝ) : Quiet s s := ⟨Frame.refl s, rfl, rfl, rfl, rfl, rfl, rfl, rfl⟩
+theorem Quiet.alloc {s t : St ℝ} (h : Quiet s t) (hw : Spec.WF s) (a : Arr ℝ) : Quiet s (t.alloc a) :=
+  ⟨h.frame.trans (Frame.alloc t a), h.fNormal, h.fCen, h.fEqs, h.fSeqs,
+    (St.get_alloc_of_lt _ _ _ (Nat.lt_of_lt_of_le hw.verts h.frame.next_le)).trans h.verts, h.volume, h.cEdges⟩
+theorem Quiet.writeSince {s t : St ℝ} (h : Quiet s t) (hw : Spec.WF s) (k : Id) (a : Arr ℝ) (hk : s.next ≤ k) :
+    Quiet s (t.write k a) :=
+  ⟨h.frame.writeSince k a hk, h.fNormal, h.fCen, h.fEqs, h.fSeqs,
+    (St.get_write_of_ne _ _ _ _ (by have := hw.verts; omega)).trans h.verts, h.volume, h.cEdges⟩
+
+theorem Quiet.observe {s t : St ℝ} (h : Quiet s t) (hw : Spec.WF s) : observe t = observe s := by
+  unfold C16.observe
+  rw [h.frame.fVerts, h.fNormal, h.fCen, h.fEqs, h.fSeqs, h.verts, h.volume, h.frame.consts,
+    h.frame.get_eq _ hw.normal.1 hw.normal.2, h.frame.get_eq _ hw.cen.1 hw.cen.2,
+    h.frame.get_eq _ hw.eqs.1 hw.eqs.2, h.frame.get_eq _ hw.seqs.1 hw.seqs.2]
+
+theorem Quiet.refines {M : Meas ℝ} {s t : St ℝ} (h : Quiet s t) (hw : Spec.WF s) (hc : Spec.Coherent M s)
+    (o : Out ℝ) (A : Answer ℝ) (ha : answerOf (t, o) = A) : Refines M s (t, o) A :=
+  ⟨h.observe hw, ha, edges_kept h.frame hw hc h.cEdges⟩
+
+theorem save_refines (M : Meas ℝ) (fmt : Nat) (s : St ℝ) (hw : Spec.WF s) (hc : Spec.Coherent M s) :
+    Refines M s (save M fmt s) (Spec.saveAns s.cls) := by
+  unfold save Spec.saveAns
+  split
+  · split
+    · -- STL: everything happens on the deep copy
+      split
+      · exact (((((Quiet.refl s).alloc hw _).alloc hw _).alloc hw _).alloc hw _).writeSince hw _ _
+          (Nat.le_succ _) |>.refines hw hc _ _ rfl
+      · exact ((((((Quiet.refl s).alloc hw _).alloc hw _).alloc hw _).alloc hw _).alloc hw _).refines hw hc _ _ rfl
+    · split
+      · have hg := getter_refines M .edges s hw hc
+        exact ⟨hg.obs, rfl, hg.edges⟩
+      · exact refines_same hw hc _ _ rfl
+  · exact refines_same hw hc _ _ rfl
+
+theorem step_refines (M : Meas ℝ) (hL : Spec.Lawful M) (q : Query) (s : St ℝ) (hw : Spec.WF s)
+    (hc : Spec.Coherent M s) :
+    Refines M s (step M q s) (Spec.answer M s.cls (observe s) (q.argOf s) q) := by
+  cases q with
+  | get g => exact getter_refines M g s hw hc
+  | toJson gs => exact toJson_refines M gs s hw hc
+  | getFaceArea => exact getFaceArea_refines M s hw hc
+  | toHoomd => exact toHoomd_refines M hL s hw hc
+  | save fmt => exact save_refines M fmt s hw hc
+  | withArg name arg =>
+    have w1 := WF.alloc hw (M.prep name (observe s) (s.get arg))
+    refine ⟨?_, ?_, edges_kept ((Frame.alloc s _).trans (Frame.alloc _ _)) hw hc rfl⟩
+    · show observe (St.alloc _ _) = _
+      rw [observe_alloc _ _ w1]; exact observe_alloc s _ hw
+    · show answerOf (_, ret1 8 _) = _
+      rw [answerOf_ret1]
+      show Spec.one 8 _ = Spec.one 8 _
+      congr 1
+      exact St.get_alloc_self (s.alloc (M.prep name (observe s) (s.get arg))) _
 
 end C16
